@@ -25,4 +25,5 @@ def run(ctx, rep):
     bt.check_prop(ctx, rep)
     # G-clamp, G-endpoint
     segrules.check_clamp(ctx, rep)
+    segrules.check_algebra(ctx, rep)
     pirules.check_endpoint_guards(ctx, rep)
